@@ -440,6 +440,11 @@ func runC01once(e *c01Env, c C01Case) (fails []vstat.Failure) {
 		for i, r := range reqs {
 			conn.SetWriteDeadline(time.Now().Add(20 * time.Second))
 			if err := WriteSegments(conn, Segments(r.raw, c.Cuts)); err != nil {
+				if r.spec.Refused {
+					// the proxy may refuse on the head alone and stop reading: the history ends here
+					st.Class("refused-before-the-body-was-sent")
+					break
+				}
 				fails = append(fails, vstat.Failf(key("write"), "writing request %d: %v", i, err))
 				break
 			}
